@@ -508,3 +508,84 @@ errno_t __wrap__wctomb_s_chk(int *retvalp, char *dest, rsize_t dmax, wchar_t wc,
     h0 = h_n; hook_on(); rc = __real__wctomb_s_chk(retvalp, dest, dmax, wc, destbos); hook_off();
     m_emit(6, loc, (long)dmax, 0, dest ? 0 : 1, 0, 1, sv, 1, dest, 0, rc, *retvalp < 0 ? (size_t)-1 : (size_t)*retvalp, -2, 1, 1, lcnt, -2, lo, nlo, h0);
     return rc; }
+
+/* ---- tokenizer sessions (C14): events in the format of htok, written to $VERIF_WRAPLOG_TOK.  A call with a non-null
+ *      dest opens a session (Reset event with the buffer); calls with a null dest continue it. ---- */
+static FILE *tlog;
+static void topen(void) { const char *p; static int done; if (done) return; done = 1; p = getenv("VERIF_WRAPLOG_TOK"); tlog = p ? fopen(p, "a") : NULL; if (tlog) setvbuf(tlog, NULL, _IOLBF, 0); }
+static long t_sid, t_eid, t_n[2], t_lastdm[2];
+static const unsigned char *t_base[2];
+static unsigned char t_last[2][4 * 420];      /* the buffer as the previous call of the session left it: a test that rewrites it between calls ends the session */
+static void t_cells(const unsigned char *b, long n, int w) {
+    static unsigned char buf[4 * 420];
+    long i, got = safe_read(b, buf, n * w) / w;
+    for (i = 0; i < got; i++) fprintf(tlog, "%s%ld", i ? "," : "", get_el(buf + i * w, w));
+}
+static void *tok_common(int w, void *dest, rsize_t *dmaxp, const void *delim, void **ptr, const size_t destbos) {
+    extern char *__real__strtok_s_chk(char *dest, rsize_t *dmaxp, const char *delim, char **ptr, const size_t destbos);
+    extern wchar_t *__real__wcstok_s_chk(wchar_t *dest, rsize_t *dmaxp, const wchar_t *delim, wchar_t **ptr, const size_t destbos);
+    int z = w == 1 ? 0 : 1, h0, en, ok = 1;
+    long dl[64], nd = 0, pin = 0, din = 0, i;
+    void *ret;
+    init_once(); topen();
+    if (!tlog || !dmaxp || !delim || !ptr) ok = 0;
+    if (ok) {
+        static unsigned char db[4 * 64];
+        long got = safe_read(delim, db, 63 * w) / w;
+        for (i = 0; i < got; i++) { dl[i] = get_el(db + i * w, w); if (dl[i] == 0) break; }
+        if (i == got) ok = 0;          /* no terminator in the window */
+        nd = i;
+        din = (long)*dmaxp;
+    }
+    if (ok && dest) {
+        static unsigned char tb[4 * 420];
+        long n = din + 1;
+        if (din < 1 || din > 400 || (destbos != (size_t)-1 && destbos < (size_t)din * w)) ok = 0;     /* (a dmax above the known object size: not in the tokenizer's vocabulary) */
+        else {
+            long got = safe_read(dest, tb, n * w) / w;
+            if (got < din) ok = 0;
+            else {
+                t_base[z] = dest; t_n[z] = got; t_sid++; t_eid = t_sid * 1000;
+                fprintf(tlog, "{\"e\":\"Reset\",\"id\":%ld,\"sid\":%ld,\"w\":%d,\"buf\":[", t_eid++, t_sid, w);
+                t_cells(t_base[z], t_n[z], w);
+                fprintf(tlog, "],\"dmax\":%ld}\n", din);
+            }
+        }
+    } else if (ok) {
+        const unsigned char *p = *ptr;
+        if (!t_base[z] || !p || p < t_base[z] || p > t_base[z] + t_n[z] * w) ok = 0;
+        else {
+            static unsigned char cur[4 * 420];
+            long got = safe_read(t_base[z], cur, t_n[z] * w);
+            if (got != t_n[z] * w || memcmp(cur, t_last[z], got) || din != t_lastdm[z]) { ok = 0; t_base[z] = 0; }
+            else pin = (long)(p - t_base[z]) / w + 1;
+        }
+    }
+    if (!ok) {
+        nskip++;
+        if (dest) t_base[z] = 0;       /* a session we could not open: its continuation calls are skipped as well */
+        return w == 1 ? (void *)__real__strtok_s_chk(dest, dmaxp, delim, (char **)ptr, destbos) : (void *)__real__wcstok_s_chk(dest, dmaxp, delim, (wchar_t **)ptr, destbos);
+    }
+    h0 = h_n; errno = 0; hook_on();
+    ret = w == 1 ? (void *)__real__strtok_s_chk(dest, dmaxp, delim, (char **)ptr, destbos) : (void *)__real__wcstok_s_chk(dest, dmaxp, delim, (wchar_t **)ptr, destbos);
+    hook_off(); en = errno;
+    {
+        const unsigned char *p = *ptr;
+        long ptri = p ? ((p >= t_base[z] && p <= t_base[z] + t_n[z] * w) ? (long)(p - t_base[z]) / w + 1 : -2) : 0;
+        fprintf(tlog, "{\"e\":\"tok\",\"id\":%ld,\"sid\":%ld,\"first\":%s,\"delim\":[", t_eid++, t_sid, dest ? "true" : "false");
+        for (i = 0; i < nd; i++) fprintf(tlog, "%s%ld", i ? "," : "", dl[i]);
+        fprintf(tlog, "],\"pin\":%ld,\"din\":%ld,\"ret\":%ld,\"post\":[", pin, din, ret ? (long)((const unsigned char *)ret - t_base[z]) / w + 1 : 0L);
+        t_cells(t_base[z], t_n[z], w);
+        fprintf(tlog, "],\"ptr\":%ld,\"dmaxp\":%ld,\"h\":[", ptri, (long)*dmaxp);
+        for (i = h0; i < h_n && i < 64; i++) fprintf(tlog, "%s%d", i > h0 ? "," : "", h_codes[i]);
+        fprintf(tlog, "],\"hn\":%d,\"hk\":\"\",\"errno\":%d,\"fault\":\"none\",\"foff\":0}\n", h_n - h0, en);
+    }
+    safe_read(t_base[z], t_last[z], t_n[z] * w);
+    t_lastdm[z] = (long)*dmaxp;
+    errno = en;
+    return ret;
+}
+char *__wrap__strtok_s_chk(char *dest, rsize_t *dmaxp, const char *delim, char **ptr, const size_t destbos) {
+    return tok_common(1, dest, dmaxp, delim, (void **)ptr, destbos); }
+wchar_t *__wrap__wcstok_s_chk(wchar_t *dest, rsize_t *dmaxp, const wchar_t *delim, wchar_t **ptr, const size_t destbos) {
+    return tok_common(4, dest, dmaxp, delim, (void **)ptr, destbos); }
